@@ -805,6 +805,9 @@ func c10JsonListedMutations(r *Rng, rep *Report, ts []c10Jtok) {
 	}
 	cl := r.Pick([]byte("]}"))
 	c10JsonExpectErrorAt(rep, append(append([]byte{}, d...), cl), len(d), "unopened-closer")
+	// a comma after the complete top-level value, and an illegal byte there: reported at that byte
+	c10JsonExpectErrorAt(rep, append(append([]byte{}, d...), ','), len(d), "stray-comma")
+	c10JsonExpectErrorAt(rep, append(append([]byte{}, d...), r.Pick([]byte("x:'#\x00\x80"))), len(d), "illegal-byte")
 	first := 0
 	for first < len(d) && (d[first] == ' ' || d[first] == '\n' || d[first] == '\r' || d[first] == '\t') {
 		first++
